@@ -27,7 +27,7 @@ ASSUMPTIONS = ['callbacks do not raise and do not trigger (C04/C05)', 'async cla
 THEOREMS = ['C02_balanced', 'C02_exit_only_active', 'C02_enter_only_inactive', 'C02_exit_order', 'C02_enter_order',
             'C02_only_resolutions', 'C02_uniq_invariant', 'C02_registered', 'C02_initial_closure', 'C02_closed_invariant',
             'C02_initial_config_closed', 'C02_reentrant_invariants', 'C02_queued_invariants', 'C02_narrow_ok_invariant',
-            'C02_initial_config_pfull', 'C02_history_balanced', 'C02_every_event_threads_E', 'C02_full_par_delineates', 'C02_example']
+            'C02_initial_config_pfull', 'C02_history_balanced', 'C02_balanced_reachable', 'C02_every_event_threads_E', 'C02_full_par_delineates', 'C02_example']
 
 
 def gen(rng, i, tier):
